@@ -21,7 +21,7 @@ type c08Case struct {
 	Requested int   `json:"requested"` // requested width (0 = none)
 	Wide      bool  `json:"wide"`      // 2-column filler/refiller runes
 	Rev       bool  `json:"rev"`
-	Completed bool  `json:"completed"`     // Statistics.Completed flag (only generated true when current>=total>0)
+	Completed bool  `json:"completed"` // Statistics.Completed flag (only generated true when current>=total>0)
 	TipOnC    bool  `json:"tip_on_complete"`
 }
 
